@@ -291,5 +291,43 @@ pub fn run(ctx: &Ctx) -> Vec<Eng> {
             }
         });
     }
-    vec![e1, e2]
+    let (ph, maxp) = if ctx.thorough { (64, 5) } else { (40, 4) };
+    let mut e3 = Eng::new(
+        "c12-periodic",
+        "periodic histories: every primitive word of length <= p over {P(+0.5 s), P(+0), P(+3 s), N, E1} repeated to H events (values cycle through {-4,1,10}), and every history differing from one of these in exactly one position; 8 filter configurations (window fill levels and many resets in a regular pattern)",
+        &format!("H={} p<={} => {} histories x 8 configurations", ph, maxp, periodic_count(5, maxp, ph)),
+    );
+    for cfg in cfgs() {
+        par_periodic(&mut e3, 5, maxp, ph, budget, |seq, e| {
+            let h: Vec<Ev> = seq
+                .iter()
+                .enumerate()
+                .map(|(i, &s)| match s {
+                    0 => Ev::P(S / 2, cyc[i % 3]),
+                    1 => Ev::P(0, cyc[i % 3]),
+                    2 => Ev::P(3 * S, cyc[i % 3]),
+                    3 => Ev::N,
+                    _ => Ev::Er,
+                })
+                .collect();
+            e.sample(|| format!("{:?} [{}]", cfg, show(&h)));
+            check_history(cfg, &h, e)
+        });
+        par_long(&mut e3, 5, 2, &LONG_LENS, budget, |seq, e| {
+            let h: Vec<Ev> = seq
+                .iter()
+                .enumerate()
+                .map(|(i, &s)| match s {
+                    0 => Ev::P(S / 2, cyc[i % 3]),
+                    1 => Ev::P(0, cyc[i % 3]),
+                    2 => Ev::P(3 * S, cyc[i % 3]),
+                    3 => Ev::N,
+                    _ => Ev::Er,
+                })
+                .collect();
+            check_history(cfg, &h, e)
+        });
+    }
+    e3.bounds.push_str(&format!("; plus long runs: every primitive word of length <= 2 repeated to 255..257 and 511..513 events followed by one event of each kind ({} histories x 8 configurations)", long_count(5, 2, &LONG_LENS)));
+    vec![e1, e2, e3]
 }
